@@ -305,6 +305,7 @@ func (r *srun) finish() {
 		}
 	}
 	// clean the bubble whatever happened, then look for leftovers
+	r.emit(obs{E: "Free"}) // end of the verdict phase (validated by Trace_SimpleV1); what follows is harness clean-up
 	r.cancel()
 	r.finishAllHandles()
 	if r.ver == 1 && !r.stopReq && !terminated() {
